@@ -505,6 +505,10 @@ def run(pm, ctx):
     run_decisions(pm, ctx, 'C04-RD', OWN['C04'])
     from .. import exprdrift
     exprdrift.run(pm, ctx, 'C04-RE', OWN['C04'])
+    from ..conddrift import run_calls
+    run_calls(pm, ctx, 'C04-RC', OWN['C04'])
+    from .. import memo
+    memo.run(pm, ctx, 'C04-MK', OWN['C04'])
 
     # the decoder's tag table and the encoder's class table spell the subtype tags alike:
     # both take the tag of get_all_subtypes_with_tags() as it is
